@@ -103,6 +103,9 @@ pub const FLOAT_TOL: f64 = 1e-8;
 pub fn eval_snap(s: &Snap) -> Result<Tens, EvalError> {
     if s.diag.all_phases_pi4() && !s.scalar_approx {
         Ok(Tens::Exact(eval::eval_exact(&s.diag, &s.scalar)?))
+    } else if s.diag.all_phases_pi4() {
+        // only the stored scalar is inexact: keep the diagram part exact
+        Ok(Tens::Float(eval::eval_exact_times_float(&s.diag, s.scalar.to_cf())?))
     } else {
         Ok(Tens::Float(eval::eval_float(&s.diag, s.scalar.to_cf())?))
     }
